@@ -106,6 +106,34 @@ def run(ctx):
         _check_perms(ctx, gw, rs, 2000 + wi)
     ctx.bound("wide bubble: one bubble with 12 inner nodes (NO 1..12), %d x 4 single-node records (at least one with NO >= 10 and one with "
               "NO <= 9) x all 24 permutations" % n_wide)
+    # large NO numbers (added after seeded change C08-7: a packed integer key with 16 bits for NO): a bubble whose inner nodes are numbered
+    # 65535, 65536, 70000 and 2^20+3 next to small ones, followed by bubbles 2 and 3 of the chain; single-node records, all permutations
+    BIG = [1, 9, 65535, 65536, 70000, (1 << 20) + 3]
+    segs = [Seg("b0", "AC", "chr1", 0, 0), Seg("b99", "GT", "chr1", 3, 0), Seg("c1", "T", "chr1", 5, 0), Seg("c99", "GG", "chr1", 6, 0)]
+    for sg, (bo, no) in zip(segs, [(0, 0), (2, 0), (3, 1), (4, 0)]):
+        sg.bo, sg.no = bo, no
+    links = [("b99", "+", "c1", "+", 0), ("c1", "+", "c99", "+", 0)]
+    for j, k in enumerate(BIG):
+        sg = Seg("b%d" % k, "ACGT"[j % 4] * (1 + j % 3), "chr1" if j == 0 else "hapb%d" % j, 2 if j == 0 else 10 * (j + 1), 0 if j == 0 else 1)
+        sg.bo, sg.no = 1, k
+        segs.insert(1 + j, sg)
+        links += [("b0", "+", sg.id, "+", 0), (sg.id, "+", "b99", "+", 0)]
+    for sg in segs:
+        sg.extra = ("BO:i:%d" % sg.bo, "NO:i:%d" % sg.no)
+    gb = Graph(segs, links)
+    n_big = 3 if ctx.quick else 20
+    for bi in range(n_big):
+        ids = ["b%d" % rng.choice(BIG[2:]), "b%d" % rng.choice(BIG), rng.choice(["b99", "c1", "c99"]), rng.choice(["b0", "b99", "c1"])]
+        rs = []
+        for i, nid in enumerate(ids):
+            w = [(nid, rng.choice("><"))]
+            pl = gb.by_id[nid].ln
+            ps = rng.randint(0, pl - 1)
+            pe = rng.randint(ps + 1, pl)
+            rs.append((w, ps, pe, sortlib.gaf_record(gb, w, ps, pe, name="big%d_%d" % (bi, i))))
+        _check_perms(ctx, gb, rs, 4000 + bi)
+    ctx.bound("large NO: one bubble whose inner nodes carry NO in %s, followed by nodes of BO 2, 3, 4; %d x 4 single-node records (at least one with NO >= 65535 "
+              "and one on a later bubble) x all 24 permutations.  NOT covered: start offsets >= 2^32 (would need a node of 4 Gb)" % (BIG, n_big))
     # several records on the SAME path, consecutive in the input, with full-length / centred / off-centre intervals (any per-record state
     # carried over from the previous line shows here) - added after seeded change C08-6
     n_same = 6 if ctx.quick else 60
